@@ -17,20 +17,20 @@ open Lean Lena.Drv Lena.C16
 
 structure TestEl where
   k : Nat
-  mut : Bool
+  mutates : Bool
   map : Bool
   pre : Bool
   post : Bool
 
-def results (k : Nat) (s : List Int) : List (List Int) := (List.range k).map (fun j => (j : Int) :: s)
+def results (k : Nat) (s : List Int) : List (List Int) := (List.range k).map (fun (j : Nat) => (j : Int) :: s)
 
 def baseEl (t : TestEl) : El (List Int) Int (List Int) where
   fill s x := s ++ [x]
-  req s := (results t.k s, if t.mut then s ++ [-1] else s)
+  req s := (results t.k s, if t.mutates then s ++ [-1] else s)
   reset _ := []
   run s xs :=
     if t.map then (xs.map (fun x => [x + 100]), s)
-    else let s' := s ++ xs; (results t.k s', if t.mut then s' ++ [-1] else s')
+    else let s' := s ++ xs; (results t.k s', if t.mutates then s' ++ [-1] else s')
 
 def testEl (t : TestEl) : El (List Int) Int (List Int) :=
   if t.pre || t.post then
@@ -41,7 +41,7 @@ def testEl (t : TestEl) : El (List Int) Int (List Int) :=
 def parseEl (j : Json) : Option TestEl := do
   let k ← nat? (getD j "k")
   let b (key : String) : Bool := (bool? (getD j key)).getD false
-  some { k := k, mut := b "mut", map := b "map", pre := b "pre", post := b "post" }
+  some { k := k, mutates := b "mut", map := b "map", pre := b "pre", post := b "post" }
 
 def parseCaps (j : Json) : Option Caps := do
   let a ← arr? j
